@@ -1,27 +1,103 @@
 #!/venv/bin/python
-"""prints the markdown tables for DESIGN.md: findings (from known_findings.json) and seeded changes (seeded/*/meta.json)"""
-import json, glob, os, sys
+"""Development tool: the generated tables of DESIGN.md.
+
+    tools/design_tables.py            print the findings table and the seeded-changes table
+    tools/design_tables.py --refresh  rewrite the blocks of DESIGN.md between
+                                      <!-- GEN:name --> and <!-- /GEN:name -->
+                                      (names: theorem_counts, findings, seeded)
+Sources: known_findings.json, seeded/*/meta.json, coq/Cxx/Props.v."""
+import contextlib
+import glob
+import io
+import json
+import os
+import re
+import sys
+
 V = os.path.dirname(os.path.dirname(os.path.abspath(__file__)))
-kf = json.load(open(os.path.join(V, "known_findings.json")))["findings"]
-print("### 6a. Findings as of the last run (source of truth: `known_findings.json`)\n")
-print("%d defects were repaired by `fix:` commits in /repo (each listed as `fixed: property=… <commit> …`; the check follows the repaired code and reports the defect again if the commit is reverted); %d are open.\n" % (
-    sum(1 for f in kf if f["status"] == "fixed"), sum(1 for f in kf if f["status"] == "open")))
-print("| property | key | status | what |\n|---|---|---|---|")
-for f in sorted(kf, key=lambda f: (f["property"], f["status"], f["key"])):
-    what = f.get("what") or f.get("line", "").split(" ", 3)[-1]
-    print("| %s | %s | %s | %s |" % (f["property"], f["key"], f["status"] + (" " + f["commit"] if f.get("commit") else ""), what.replace("|", "\\|")[:400]))
-print("\n### 0.2 Seeded changes: which check catches which change\n")
-print("Independent sub-agents, given only the property text and a scratch worktree, wrote two rounds of two\nproperty-breaking changes per property (each passes the existing tests and comes with a demonstration).  "
-      "`first` = caught by the check as it was when the change arrived; `now` = caught by the committed check, "
-      "confirmed by applying the patch to /repo itself and undoing it (`tools/seed_inrepo.py`).  Every miss led to a "
-      "strengthening of the generators (see the `strengthened` column).\n")
-print("| seed | change (summary) | needs | first | now | caught as |\n|---|---|---|---|---|---|")
-for d in sorted(glob.glob(os.path.join(V, "seeded", "*"))):
-    m = json.load(open(os.path.join(d, "meta.json")))
-    v = m.get("verification", {})
-    r = m.get("in_repo_confirmation", {})
-    first = m.get("first_eval_caught", v.get("caught"))
-    kinds = ", ".join(sorted({l.split("replay=replays/")[-1].split("-", 1)[-1].rsplit("-", 1)[0] for l in r.get("violation_lines", [])}))
-    print("| %s | %s | %s | %s | %s | %s |" % (os.path.basename(d), (m.get("summary") or "").replace("|", "\\|").replace("\n", " ")[:230],
-          (m.get("needs_to_manifest") or "").replace("|", "\\|").replace("\n", " ")[:200], "yes" if first else "NO",
-          ("yes" if r.get("caught") else ("patch no longer applies" if r.get("applies") is False else "NO")) if r else "?", kinds[:120]))
+
+
+def findings_table():
+    kf = json.load(open(os.path.join(V, "known_findings.json")))["findings"]
+    print("### 6a. Findings as of the last run (source of truth: `known_findings.json`)\n")
+    print("%d defects were repaired by `fix:` commits in /repo (each listed as `fixed: property=… <commit> …`; "
+          "the check follows the repaired code and reports the defect again if the commit is reverted); %d are open.\n" % (
+              sum(1 for f in kf if f["status"] == "fixed"), sum(1 for f in kf if f["status"] == "open")))
+    print("| property | key | status | what |\n|---|---|---|---|")
+    for f in sorted(kf, key=lambda f: (f["property"], f["status"], f["key"])):
+        what = f.get("what") or f.get("line", "").split(" ", 3)[-1]
+        print("| %s | %s | %s | %s |" % (f["property"], f["key"],
+                                         f["status"] + (" " + f["commit"] if f.get("commit") else ""),
+                                         what.replace("|", "\\|")[:400]))
+
+
+def seeded_table():
+    print("### 0.2 Seeded changes: which check catches which change\n")
+    print("Independent sub-agents, given only the property text and a scratch worktree, wrote three rounds of two\n"
+          "property-breaking changes per property (A,B / C,D / E,F; each passes the existing tests and comes with a\n"
+          "demonstration).  `first` = caught by the check as it was when the change arrived; `now` = caught by the\n"
+          "committed check, confirmed by applying the patch to /repo itself and undoing it (`tools/seed_inrepo.py`;\n"
+          "`check` names the property whose check reports it when that is not the seed's own).  Every miss led to a\n"
+          "strengthening of the generators, never of a tolerance.\n")
+    rows = []
+    for d in sorted(glob.glob(os.path.join(V, "seeded", "*"))):
+        m = json.load(open(os.path.join(d, "meta.json")))
+        v = m.get("verification", {})
+        r = m.get("in_repo_confirmation", {})
+        first = m.get("first_eval_caught", v.get("caught"))
+        kinds = ", ".join(sorted({l.split("replay=replays/")[-1].split("-", 1)[-1].rsplit("-", 1)[0]
+                                  for l in r.get("violation_lines", [])}))
+        now = ("yes" if r.get("caught") else ("patch no longer applies" if r.get("applies") is False else "NO")) if r else "?"
+        rows.append((os.path.basename(d), m, first, now, r.get("check", ""), kinds))
+    n = len(rows)
+    print("Totals: %d changes; caught on first evaluation %d; caught now %d.\n" % (
+        n, sum(1 for r in rows if r[2]), sum(1 for r in rows if r[3] == "yes")))
+    print("| seed | change (summary) | needs | first | now | check | caught as |\n|---|---|---|---|---|---|---|")
+    for name, m, first, now, chk, kinds in rows:
+        print("| %s | %s | %s | %s | %s | %s | %s |" % (
+            name, (m.get("summary") or "").replace("|", "\\|").replace("\n", " ")[:230],
+            (m.get("needs_to_manifest") or "").replace("|", "\\|").replace("\n", " ")[:200],
+            "yes" if first else "NO", now, chk if chk and chk != name.split("-")[0] else "", kinds[:120]))
+
+
+def theorem_counts():
+    rows = ["| id | theorems in Props.v |", "|---|---|"]
+    total = 0
+    for i in range(1, 21):
+        pid = "C%02d" % i
+        src = open(os.path.join(V, "coq", pid, "Props.v")).read()
+        n = len(re.findall(r"^Theorem ", src, flags=re.M))
+        total += n
+        rows.append("| %s | %d |" % (pid, n))
+    rows.append("| total | %d |" % total)
+    print("\n".join(rows))
+
+
+def capture(fn):
+    buf = io.StringIO()
+    with contextlib.redirect_stdout(buf):
+        fn()
+    return buf.getvalue().strip()
+
+
+def refresh_design():
+    path = os.path.join(V, "DESIGN.md")
+    text = open(path).read()
+    blocks = {"theorem_counts": capture(theorem_counts), "findings": capture(findings_table),
+              "seeded": capture(seeded_table)}
+    for name, body in blocks.items():
+        pat = re.compile(r"(<!-- GEN:%s -->).*?(<!-- /GEN:%s -->)" % (name, name), re.S)
+        if not pat.search(text):
+            print("marker missing:", name)
+            continue
+        text = pat.sub(lambda m: m.group(1) + "\n" + body + "\n" + m.group(2), text)
+    open(path, "w").write(text)
+
+
+if __name__ == "__main__":
+    if "--refresh" in sys.argv:
+        refresh_design()
+    else:
+        findings_table()
+        print()
+        seeded_table()
